@@ -110,6 +110,11 @@ func (d *Drv) unregObs(slot int) {
 // onEvent is the body of every observer callback.
 func (d *Drv) onEvent(slot int, spec *ObsSpec, h ecs.Entity, ptrs typed.Ptrs) {
 	d.Stat.ObsFired++
+	if d.isUnregDuring(slot) {
+		// Unregister returned earlier during this operation (from inside a callback): the observer is not registered
+		// any more, whatever the dispatch in progress had planned
+		d.viol("C08", "called-after-unregister", "observer %d (%v) was called after it had been unregistered from inside a callback of the same operation (%s)", slot, spec.Ev, d.cur.Op.K)
+	}
 	var id EID
 	ok := true
 	if h.IsZero() {
